@@ -5,7 +5,7 @@ Require Import V.Lib.Base V.Lib.Calls V.Lib.Dec V.C09.Spec V.Gen.Consts V.Gen.Co
 Require Import V.C07.Model V.C07.Spec V.C07.ProofsLex V.C07.ProofsGram V.C07.ProofsTop.
 Require Import V.Lib.Contract.
 Require V.C07.ProofsStream V.C07.ProofsContract.
-Require Import V.C07.SpecG V.C07.ProofsGSound.
+Require Import V.C07.SpecG V.C07.ProofsGSound V.C07.ProofsGComplete2 V.C07.ProofsGTop.
 Local Open Scope Z_scope.
 
 (* Every text that follows the smodels layout (any whitespace / LF / CRLF between tokens, ANY non-negative numbers in
@@ -212,3 +212,50 @@ Example c07_ex_general :
   read_smodels (mkopts false false) (grender gex) = ([CInit false; CBegin; CRule 0 [1] []; COutput [97; 98] [2]; CExternal 1 0; CEnd], Ok tt) /\
   gdenote gex = [CInit false; CBegin; CRule 0 [1] []; COutput [97; 98] [2]; CExternal 1 0; CEnd].
 Proof. repeat split; vm_compute; reflexivity. Qed.
+
+(* COMPLETENESS for the general description: every such text is accepted and delivers its denotation (generalises
+   c07_complete from the writers' layout to signs, leading zeros, sign-separated numbers, all separators / line breaks). *)
+Theorem c07_gcomplete : forall (o : opts) (p : gprog),
+  glayout_ok p = true -> gin_range (claspExt o) p = true -> read_smodels o (grender p) = (gdenote p, Ok tt).
+Proof. exact V.C07.ProofsGComplete2.g_complete. Qed.
+Print Assumptions c07_gcomplete.
+
+(* EXACTNESS: a byte list is accepted exactly when it is the text of a well-formed, in-range (optionally clasp-extended)
+   smodels program; no hypothesis on t. *)
+Theorem c07_exact : forall (o : opts) (t : list Z),
+  (exists cs, read_smodels o t = (cs, Ok tt)) <->
+  (exists p : gprog, glayout_ok p = true /\ gin_range (claspExt o) p = true /\ t = grender p).
+Proof. exact V.C07.ProofsGTop.g_exact. Qed.
+Print Assumptions c07_exact.
+
+(* ... on acceptance the reader delivers precisely the denoted calls, in order: the denotation of some description of t, and
+   of EVERY description of t (the denotation of a text does not depend on how it is read as a program). No layout hypothesis. *)
+Theorem c07_denotes : forall (o : opts) (t : list Z) (cs : list call), read_smodels o t = (cs, Ok tt) ->
+  (exists p, (glayout_ok p = true /\ gin_range (claspExt o) p = true /\ t = grender p) /\ cs = gdenote p) /\
+  (forall p, glayout_ok p = true /\ gin_range (claspExt o) p = true /\ t = grender p -> cs = gdenote p).
+Proof. exact V.C07.ProofsGTop.g_denotes. Qed.
+Print Assumptions c07_denotes.
+
+(* ... and every other byte list is refused with an error. *)
+Theorem c07_rejects_exact : forall (o : opts) (t : list Z),
+  ~ (exists p : gprog, glayout_ok p = true /\ gin_range (claspExt o) p = true /\ t = grender p) ->
+  exists cs ln, read_smodels o t = (cs, Err ln).
+Proof. exact V.C07.ProofsGTop.g_rejects. Qed.
+Print Assumptions c07_rejects_exact.
+
+(* the writers' layout (Spec.v, used by C05) is a special case of the general description, with the same denotation *)
+Theorem c07_general_covers_layout : forall (o : opts) (p : lprog), layout_ok p = true -> in_range (claspExt o) p = true ->
+  exists q : gprog, (glayout_ok q = true /\ gin_range (claspExt o) q = true /\ render p = grender q) /\ gdenote q = denote p.
+Proof. exact V.C07.ProofsGTop.g_embeds. Qed.
+Print Assumptions c07_general_covers_layout.
+
+(* on a NUL-free text (the domain on which C09 ties the abstract stream to BufferedStream) only whitespace follows the last step *)
+Theorem c07_tail_nul_free : forall (p : gprog), glayout_ok p = true -> nul_free (grender p) -> ws_ok (gp_tail p) = true.
+Proof. exact V.C07.ProofsGTop.g_tail_nul_free. Qed.
+Print Assumptions c07_tail_nul_free.
+
+(* non-vacuity of c07_rejects_exact / the separator clause: a NUL byte behind a symbol-table atom is not a separator *)
+Example c07_ex_nul_separator :
+  read_smodels (mkopts false false) [49;32;49;32;48;32;48;10;48;10;50;0;97;98;10;48;10;66;43;10;48;10;66;45;10;48;10;49;10] =
+  ([CInit false; CBegin; CRule 0 [1] []], Err 3).
+Proof. vm_compute. reflexivity. Qed.
